@@ -1,4 +1,66 @@
-From Emitter Require Import Lib.Base Model.Broker.
-Theorem C07_placeholder : presenceW = 3869262148.
-Proof. reflexivity. Qed.
-Print Assumptions C07_placeholder.
+(* C07 - Messages are retained and replayed exactly as requested.
+   Model: on_publish / store_if / on_subscribe of Model/Broker.v over the store of Model/Store.v
+   (whose query is C06's subject).  Generic in the subscription index. *)
+From Emitter Require Import Lib.Base Model.MsgCodec Model.Channel Model.Key Model.Trie Model.Store Model.Broker
+     Spec.PubSub Spec.BrokerSpec Proofs.BrokerProofs Proofs.BrokerStep.
+
+(* an accepted publish is written to history iff it carries a positive ttl (the ttl option, or the
+   retain flag = the retained marker that the store turns into the retention period) and its key has
+   the store permission; once, under the publisher's contract and channel, payload unchanged *)
+Theorem C07_stored_iff_requested_and_permitted : forall {I} (X : ixops I) e (b : @broker I) i c mid retain topic payload r k,
+  let ch := parse_channel (get_link c topic) in
+  (c_type ch =? ChannelInvalid) = false -> (c_type ch =? ChannelStatic) = true ->
+  bytes_eqb (c_key ch) s_emitter = false ->
+  auth e ch AllowWrite = Some k -> has_permission k AllowExtend = false ->
+  let ssid := key_contract k :: c_query ch in
+  let ttl := publish_ttl retain ch in
+  exists b', on_publish X e b i c mid retain topic payload r = (b', None)
+    /\ b_store b' = (if (0 <? ttl) && has_permission k AllowStore
+                     then store_msg (e_retain e) (b_store b) (Msg (fresh_id e b ssid) (c_chan ch) payload ttl)
+                     else b_store b)
+    /\ b_trie b' = b_trie b /\ b_conns b' = b_conns b.
+Proof. intros I X. exact (accepted_publish_stores_iff X). Qed.
+Print Assumptions C07_stored_iff_requested_and_permitted.
+
+(* the ttl that is requested: the option if positive, else the retained marker if the retain flag
+   is set, else none *)
+Theorem C07_requested_ttl : forall retain ch,
+  publish_ttl retain ch = match get_option s_ttl (c_opts ch) with
+                          | Some v => if (0 <? v)%Z then u32z v else if retain then retainedTTL else 0
+                          | None => if retain then retainedTTL else 0
+                          end.
+Proof. intros. unfold publish_ttl. destruct (get_option s_ttl (c_opts ch)); reflexivity. Qed.
+Print Assumptions C07_requested_ttl.
+
+(* an accepted subscription: what is replayed is exactly the store's answer to the query for the
+   last N (default 1) matching messages in the window when the key may load, nothing otherwise ... *)
+Theorem C07_replay_is_the_query : forall {I} (X : ixops I) e (b : @broker I) i c topic k,
+  let ch := parse_channel (repl_dslash (repl_hash topic)) in
+  (c_type ch =? ChannelInvalid) = false -> auth e ch AllowRead = Some k -> has_permission k AllowExtend = false ->
+  let ssid := key_contract k :: c_query ch in
+  let limit := match get_option s_last (c_opts ch) with Some v => Z.to_N v | None => 1 end in
+  exists b1, on_subscribe X e (clear_out b) i c topic = (b1, None)
+    /\ b_out b1 = if has_permission k AllowLoad
+                  then map (fun m => (i, PMsg (m_chan m) (m_payload m)))
+                           (query (b_store b) (e_now e) ssid (fst (chan_window ch)) (snd (chan_window ch)) [] limit)
+                  else [].
+Proof. intros I X. exact (replay_is_query X). Qed.
+Print Assumptions C07_replay_is_the_query.
+
+(* ... and it precedes the SUBACK, which precedes everything else the step writes (only presence
+   notifications); live messages can only come with later steps *)
+Theorem C07_replay_precedes_suback : forall {I} (X : ixops I) e (b : @broker I) i c mid topic qos b1,
+  get_conn (b_conns b) (N.to_nat i) = Some c ->
+  on_subscribe X e (clear_out b) i c topic = (b1, None) ->
+  exists replay notes,
+    b_out (step X e b i (OSub mid topic qos)) = map (fun m => (i, PMsg (m_chan m) (m_payload m))) replay ++ [(i, PSuback mid [qos])] ++ notes
+    /\ Forall is_presence notes
+    /\ b_out b1 = map (fun m => (i, PMsg (m_chan m) (m_payload m))) replay.
+Proof. intros I X. exact (replay_precedes_suback X). Qed.
+Print Assumptions C07_replay_precedes_suback.
+
+Example C07_nonvacuous :
+  publish_ttl true (Chan [] [97] [] [] ChannelStatic) = retainedTTL
+  /\ publish_ttl false (Chan [] [97] [] [([116;116;108], [51;48])] ChannelStatic) = 30
+  /\ publish_ttl false (Chan [] [97] [] [] ChannelStatic) = 0.
+Proof. vm_compute. repeat split. Qed.
